@@ -10,11 +10,13 @@ for f in sorted(glob.glob(os.path.join(ROOT, "seeded", "*", "meta.json"))):
     others = [p for p, r in (m.get("checks") or {}).items() if p != m["property"] and r.get("violations")]
     rows.append("| %s | %s | %s | %s | %s |" % (m["id"], (m.get("title") or "").replace("|", "/")[:110],
                                              (m.get("needs_to_manifest") or "").replace("|", "/").replace("\n", " ")[:140],
-                                             m["verdict"] + ((" (tier %s)" % m.get("caught_in_tier")) if m.get("caught_in_tier") else ""),
+                                             m["verdict"] + (" (first pass: MISSED, then strengthened)" if m.get("first_pass_verdict") == "MISSED" and m["verdict"] == "caught" else ""),
                                              (sigs or "-") + ((" ; also flagged by " + ",".join(others)) if others else "")))
 n = len(rows); c = sum(1 for r in rows if "| caught" in r)
-table = ("%d independent changes kept, %d reported as VIOLATION by the check of the property they break.\n\n"
-         "| id | change | needs to manifest | verdict | signatures reported |\n|----|--------|-------------------|---------|---------------------|\n" % (n, c)) + "\n".join(rows) + "\n"
+fp = sum(1 for f in glob.glob(os.path.join(ROOT, "seeded", "*", "meta.json")) if json.load(open(f)).get("first_pass_verdict") == "MISSED")
+table = ("%d independent changes kept, %d reported as VIOLATION by the check of the property they break "
+         "(%d of them only after the check had been strengthened with a general scenario class; no check special-cases a seeded change).\n\n"
+         "| id | change | needs to manifest | verdict | signatures reported |\n|----|--------|-------------------|---------|---------------------|\n" % (n, c, fp)) + "\n".join(rows) + "\n"
 p = os.path.join(ROOT, "DESIGN.md")
 s = open(p).read()
 s = re.sub(r"(<!-- SEEDED-TABLE-BEGIN -->\n).*?(<!-- SEEDED-TABLE-END -->)", lambda mo: mo.group(1) + table + mo.group(2), s, flags=re.S)
